@@ -675,7 +675,12 @@ func prepareBatchItem(bc *BatchCheck, fc *ProgCheck, it *batchItem, tmp string, 
 			name := "gen_" + t + "_verif.go"
 			fixed, errs := compileWithSource(l, name, out[""])
 			if len(errs) > 0 {
-				counts["skipped_not_compiling(C01):"+t]++
+				counts["not_compiling:"+t]++
+				// the property is about what this generated code does: code that does not compile does nothing
+				// (C01 reports the same program for its own reason)
+				r.Fail(evid.Failure{Clause: bc.ID + "/generated-code-usable", Sig: t + " does not compile: " + errClass(errs[0]),
+					Detail: fmt.Sprintf("the output of %s does not type-check with its source package, so nothing of the property can hold for this program:\n%s", t, strings.Join(errs, "\n")),
+					Family: fc.Family, Features: p.Features, Files: p.FilesMap(), Vector: it.vec, Cost: explore.Cost(it.vec)})
 				return false
 			}
 			if t == prog.TSqlcrud {
